@@ -36,7 +36,7 @@ from vlib import cnat, cbool, clist
 import c19_impl as I
 
 HEADER = ("From Coq Require Import List ZArith Bool.\nImport ListNotations.\n"
-          "From QV Require Import Model.C19.\n")
+          "From QV Require Import Model.C19 Model.C19_merge.\n")
 
 TYPES = {"R": "TR", "I": "TI", "RI": "TRI", "+": "TPlus", "-": "TMinus"}
 RTYPES = {v: k for k, v in TYPES.items()}
@@ -1076,6 +1076,179 @@ def corr_blocks(ctx, rng, ncases, big):
     ctx.sample({"blocks_spec": specs[-1], "model_value": vals[-1][:400]})
 
 
+# ------------------------------------------- merge intertwiner correspondence
+def gen_merge_spec(rng, big):
+    n = rng.choice([2, 2, 3])
+    nq = rng.choice([1, 2])
+    Qs = distinct_mats(rng, n, nq, herm)
+    e1 = bos_exp(rng, nq, dims=(None,))
+    e2 = bos_exp(rng, nq, dims=(None,))
+    e2["vk"], e2["q"] = list(e1["vk"]), e1["q"]
+    rest = [bos_exp(rng, nq) for _ in range(rng.choice([0, 1, 1, 2]))]
+    depth = rng.choice([1, 2, 2, 3] if len(rest) < 2 or big else [1, 2])
+    return {"kind": "bos", "n": n, "H": herm(rng, n), "Qs": Qs, "exps": [e1, e2] + rest,
+            "depth": depth, "odd": False}
+
+
+def corr_merge(ctx, rng, ncases, big):
+    """ties Model/C19_merge.v: (a) col_tags/g_col_entries = the block column of the
+    real rhs(0); (b) combine2 = the real BathExponent._combine; (c) the label map and
+    weights evaluated in Coq intertwine the two REAL generators exactly"""
+    import qutip
+    from qutip.solver.heom.bofin_solvers import HEOMSolver
+    from qutip.solver.heom.bofin_baths import Bath
+    specs = [gen_merge_spec(rng, big) for _ in range(ncases)]
+    exprs, picks = [], []
+    for sp in specs:
+        labels = I.ref_labels(I.ref_dims(sp), sp["depth"])
+        pk = [list(rng.choice(labels)) for _ in range(2)]
+        picks.append(pk)
+        ex = clist(sp["exps"], cexp)
+        exprs.append(
+            "(match sne (heom_dims G %s %s) %s with Some ls => map (fun n => (n, merge_label n, "
+            "merge_weight n)) ls | None => [] end, map (g_col_entries %s %s false) %s, "
+            "(fun e => (e_type G e, e_ck G e, e_vk G e, e_ck2 G e, e_dim G e)) "
+            "(combine2 G g0 gadd %s %s))" % (
+                ex, cnat(sp["depth"]), cnat(sp["depth"]), ex, cnat(sp["depth"]),
+                clist(pk, lambda l: clist(l, cnat)), cexp(sp["exps"][0]), cexp(sp["exps"][1])))
+    vals = vlib.coq_eval_values("cases_C19_merge", HEADER, exprs, chunk=20)
+    dist = ctx.cov.setdefault("input_distribution", {}).setdefault("merge", {})
+    for sp, pk, v in zip(specs, picks, vals):
+        tmap, cols, comb = vlib.parse_coq_value(v)
+        N = sp["n"] ** 2
+        ctx.count_case(("merge", json.dumps(sp)), nontrivial=sp["depth"] >= 2)
+        ctx.cov["traces_validated_against_impl"] += 1
+        key = "%d-exponents-depth-%d" % (len(sp["exps"]), sp["depth"])
+        dist[key] = dist.get(key, 0) + 1
+        diff = None
+        try:
+            sA, GA = I.real_generator(sp)
+            objs = I.make_exponents(sp)
+            if not objs[0]._can_combine(objs[1], 1e-5, 1e-7):
+                diff = "real _can_combine refuses a pair of equal rate and coupling operator"
+            e12 = objs[0]._combine(objs[1])
+            sB = HEOMSolver(qutip.Qobj(I.mat(sp["H"])), Bath([e12] + objs[2:]), sp["depth"])
+            GB = sB.rhs(0).full()
+        except Exception as e:      # noqa
+            ctx.violation("corr:merge", {"what": "exception", "error": I.canon_err(e)},
+                          "merge correspondence: implementation raised %s" % e,
+                          {"kind": "merge", "spec": sp})
+            continue
+        # (b) combine2
+        t, ck, vk, ck2, dim = comb
+        real12 = (e12.type.name, I.to_gint(np.array([e12.ck]))[0], I.to_gint(np.array([e12.vk]))[0],
+                  None if e12.ck2 is None else I.to_gint(np.array([e12.ck2]))[0], e12.dim)
+        model12 = (RTYPES[t], list(ck), list(vk),
+                   None if unsome(ck2) is None else list(unsome(ck2)), unsome(dim))
+        if diff is None and real12 != model12:
+            diff = "combine2 %r differs from BathExponent._combine %r" % (model12, real12)
+        # (a) block column of the real generator
+        labA = [tuple(l) for l in sA.ados.labels]
+        posA = {l: i for i, l in enumerate(labA)}
+        f = basis_mats(sp)
+        H = I.mat(sp["H"])
+        L = -1j * (I.spre(H) - I.spost(H))
+        for npick, entries in zip(pk, cols):
+            if diff:
+                break
+            c = posA[tuple(npick)]
+            want = {}
+            for row, terms in entries:
+                M = sum((complex(tm[0], tm[1]) * f(tm[2]) for tm in terms),
+                        np.zeros((N, N), dtype=complex))
+                want[tuple(row)] = want.get(tuple(row), 0) + M
+            for l, i in posA.items():
+                blk = GA[i * N:(i + 1) * N, c * N:(c + 1) * N] - (L if i == c else 0)
+                w = want.get(l, np.zeros((N, N)))
+                if not np.array_equal(blk, w):
+                    diff = "block column %r of rhs(0): row %r differs from col_tags model" % (
+                        npick, list(l))
+                    break
+        # (c) intertwiner with the Coq-evaluated map
+        if diff is None:
+            labB = [tuple(l) for l in sB.ados.labels]
+            posB = {l: i for i, l in enumerate(labB)}
+            T = np.zeros((N * len(labB), N * len(labA)))
+            ok = len(tmap) == len(labA)
+            for n, m, w in tmap:
+                if tuple(m) not in posB or tuple(n) not in posA:
+                    ok = False
+                    break
+                i, j = posB[tuple(m)], posA[tuple(n)]
+                T[i * N:(i + 1) * N, j * N:(j + 1) * N] = w * np.eye(N)
+            if not ok:
+                diff = "merge_label leaves the merged hierarchy"
+            elif not np.array_equal(T @ GA, GB @ T):
+                diff = "T G_A != G_B T for the real generators (T from the Coq model)"
+            elif not np.array_equal(T[:N, :N], np.eye(N)) or np.any(T[:N, N:] != 0):
+                diff = "T does not fix rho_0"
+        if diff:
+            bad = oracle_generator(sp)
+            ctx.violation("corr:merge", {"impl-violates": bool(bad), "what": diff.split(":")[0][:40]},
+                          "merge/intertwiner model and implementation disagree: " + diff,
+                          {"kind": "merge", "spec": sp}, found_input=True)
+    ctx.sample({"merge_spec": specs[-1], "model_value": vals[-1][:300]})
+
+
+def corr_perm(ctx, rng, ncases, big):
+    """ties `permute` (Model/C19.v): the label map n |-> n o pi evaluated in Coq
+    conjugates the REAL generators of the original and the re-ordered bosonic exponent
+    list exactly, and heom_dims of the re-ordered list is the real solver's dims"""
+    specs, pis, exprs = [], [], []
+    for _ in range(ncases):
+        sp = gen_spec(rng, kind="bos", big=big)
+        ne = len(sp["exps"])
+        pi = list(range(ne))
+        rng.shuffle(pi)
+        specs.append(sp)
+        pis.append(pi)
+        ex = clist(sp["exps"], cexp)
+        exprs.append(
+            "(match sne (heom_dims G %s %s) %s with Some ls => map (fun n => (n, permute 0 %s n)) ls "
+            "| None => [] end, heom_dims G (permute (dflt G g0) %s %s) %s)" % (
+                ex, cnat(sp["depth"]), cnat(sp["depth"]), clist(pi, cnat),
+                clist(pi, cnat), ex, cnat(sp["depth"])))
+    vals = vlib.coq_eval_values("cases_C19_perm", HEADER, exprs, chunk=20)
+    for sp, pi, v in zip(specs, pis, vals):
+        pairs, mdims = vlib.parse_coq_value(v)
+        N = sp["n"] ** 2
+        ctx.count_case(("perm", json.dumps(sp), pi), nontrivial=len(pi) >= 2 and sp["depth"] >= 1)
+        ctx.cov["traces_validated_against_impl"] += 1
+        sp2 = copy.deepcopy(sp)
+        sp2["exps"] = [copy.deepcopy(sp["exps"][j]) for j in pi]
+        try:
+            s1, G1 = I.real_generator(sp)
+            s2, G2 = I.real_generator(sp2)
+        except Exception as e:      # noqa
+            ctx.violation("corr:perm", {"what": "exception", "error": I.canon_err(e)},
+                          "permutation correspondence: implementation raised %s" % e,
+                          {"kind": "perm", "spec": sp, "pi": pi})
+            continue
+        diff = None
+        if list(mdims) != list(s2.ados.dims):
+            diff = "dims of the re-ordered list: model %r, implementation %r" % (
+                list(mdims), list(s2.ados.dims))
+        else:
+            pos1 = {tuple(l): i for i, l in enumerate(s1.ados.labels)}
+            pos2 = {tuple(l): i for i, l in enumerate(s2.ados.labels)}
+            P = np.zeros((N * len(pos2), N * len(pos1)))
+            ok = len(pairs) == len(pos1)
+            for n, m in pairs:
+                if tuple(n) not in pos1 or tuple(m) not in pos2:
+                    ok = False
+                    break
+                P[pos2[tuple(m)] * N:(pos2[tuple(m)] + 1) * N,
+                  pos1[tuple(n)] * N:(pos1[tuple(n)] + 1) * N] = np.eye(N)
+            if not ok:
+                diff = "permuted labels leave the re-ordered hierarchy"
+            elif not np.array_equal(P @ G1, G2 @ P):
+                diff = "P G != G_pi P for the real generators (P from the Coq model)"
+        if diff:
+            ctx.violation("corr:perm", {"what": diff.split(":")[0][:40]},
+                          "permutation model and implementation disagree: " + diff,
+                          {"kind": "perm", "spec": sp, "pi": pi}, found_input=True)
+
+
 def corr_csr(ctx, rng, ncases):
     cases = [gen_blocks_case(rng) for _ in range(ncases)]
     vals = vlib.coq_eval_values("cases_C19_csr", HEADER, [csr_expr(c) for c in cases],
@@ -1137,8 +1310,8 @@ def run(ctx):
         r2 = random.Random(ctx.seed + 101)
         run_oracles(ctx, r2, 40, big=False, count=False)
 
-    vlib.standard_proof_step(ctx, ["Props/C19.vo", "Props/C19_trace.vo"],
-                             ["Props/C19.v", "Props/C19_trace.v"], search)
+    vlib.standard_proof_step(ctx, ["Props/C19.vo", "Props/C19_trace.vo", "Props/C19_merge.vo"],
+                             ["Props/C19.v", "Props/C19_trace.v", "Props/C19_merge.v"], search)
 
     q = ctx.quick
     try:
@@ -1146,6 +1319,8 @@ def run(ctx):
         corr_combine(ctx, rng, 100 if q else 1500)
         corr_blocks(ctx, rng, 40 if q else 500, big=not q)
         corr_csr(ctx, rng, 150 if q else 2500)
+        corr_merge(ctx, rng, 10 if q else 80, big=not q)
+        corr_perm(ctx, rng, 8 if q else 60, big=not q)
     except RuntimeError as e:
         ctx.violation("corr:C19:model-eval", "coqc", "model evaluation failed",
                       {"log": str(e)[-3000:]}, found_input=False)
@@ -1169,6 +1344,14 @@ def replay(ctx, payload):
     bad = []
     if kind == "final_ado_state":
         bad = [(k, w) for k, w, _ in oracle_final_ado_state(tuple(d["options"]))]
+    elif kind == "perm":
+        bad = oracle_generator(d["spec"])
+        for _ in range(8):
+            bad += oracle_permutation(d["spec"], rng)[0]
+    elif kind == "merge":
+        bad = oracle_generator(d["spec"])
+        r = oracle_merge(d["spec"], rng)
+        bad += r[0]
     elif kind == "restart":
         bad = [(k, w) for k, w, _ in oracle_restart(d["system"], d["method"])]
     elif kind == "empty-bath":
